@@ -1,6 +1,121 @@
 import WhVerif.Util.Proto
+import WhVerif.Model.C11
+import WhVerif.Spec.C11
 namespace WhVerif.Driver.C11
-open Lean WhVerif.Proto
-/-- ops of property C11 are named `c11.<name>`; return `none` for ops that are not ours -/
-def handle (_op : String) (_j : Json) : Option Json := none
+open Lean WhVerif.Proto WhVerif.C11
+
+def ofPairs (l : List (Nat × Nat)) : Json := ofList (fun p => Json.arr #[ofNat p.1, ofNat p.2]) l
+
+def errJson (e : PhasingErrors) : Json :=
+  Json.mkObj [("switches", ofNat e.switches), ("hamming", ofNat e.hamming),
+              ("sf", Json.arr #[ofNat e.sf.switches, ofNat e.sf.flips]),
+              ("diff", ofNat e.diffGenotypes), ("den", ofNat e.den)]
+
+def parseCall (j : Json) : Option Call := do
+  match ← asArr? j with
+  | [p, gt, ph, ps] => some ⟨← asNat? p, ← natList? gt, ← asBool? ph, ← asNat? ps⟩
+  | _ => none
+
+def parseTable (j : Json) : Option (List Call) := do (← asArr? j).mapM parseCall
+
+def getHaps? (j : Json) (k : String) : Option (List Hap) :=
+  match j.getObjVal? k with | .ok v => natListList? v | _ => none
+
+def flag (j : Json) (k : String) : Bool := (getBool? j k).getD false
+
+def handle (op : String) (j : Json) : Option Json :=
+  if op == "c11.hamming" then
+    match getNatList? j "a", getNatList? j "b" with
+    | some a, some b => some (if a.length = b.length then ofNat (hamming a b) else Json.str "error")
+    | _, _ => some badInput
+  else if op == "c11.switchenc" then
+    match getNatList? j "a" with
+    | some a => some (ofNatList (switchEncoding a))
+    | _ => some badInput
+  else if op == "c11.complement" then
+    match getNatList? j "a" with
+    | some a => some (match complement a with | some c => ofNatList c | none => Json.str "error")
+    | _ => some badInput
+  else if op == "c11.sf" then
+    match getNatList? j "a", getNatList? j "b" with
+    | some a, some b =>
+      some (if a.length = b.length then
+              let r := computeSwitchFlips a b; Json.arr #[ofNat r.switches, ofNat r.flips]
+            else Json.str "error")
+    | _, _ => some badInput
+  else if op == "c11.block" then
+    match getHaps? j "ph0", getHaps? j "ph1" with
+    | some ph0, some ph1 =>
+      let fixA := flag j "fixA"
+      let fixB := flag j "fixB"
+      match compareBlock fixA fixB ph0 ph1 with
+      | none => some (Json.str "error")
+      | some e =>
+        let p := ph0.length
+        let n := (ph0.headD []).length
+        if p = 2 then some (errJson e) else
+          let mp := matchingPos ph0 ph1 n
+          let sw := polyCompare fixA p 1 (2 * n * p + 1) (polyCols (ph0.map (restrictTo · mp)) (ph1.map (restrictTo · mp)) mp.length)
+          let sf := polySwitchFlips fixA fixB ph0 ph1 p n
+          some ((errJson e).mergeObj (Json.mkObj [("swAdm", ofPairs sw.admissible), ("sfAdm", ofPairs sf.admissible)]))
+    | _, _ => some badInput
+  else if op == "c11.blockspec" then
+    -- brute-force definitions (exponential: small inputs only); well-formed input expected
+    match getHaps? j "ph0", getHaps? j "ph1" with
+    | some ph0, some ph1 =>
+      let p := ph0.length
+      let n := (ph0.headD []).length
+      let mp := matchingPos ph0 ph1 n
+      let sw := Spec.polyBrute p 1 (2 * n * p + 1) (polyCols (ph0.map (restrictTo · mp)) (ph1.map (restrictTo · mp)) mp.length)
+      let sf := Spec.polyBrute p 1 1 (polyCols ph0 ph1 n)
+      some (Json.mkObj [("hammingNum", ofNat (Spec.minHammingNum ph0 ph1)),
+                        ("diff", ofNat (Spec.diffGenotypes ph0 ph1 n)),
+                        ("swCost", ofNat sw.1), ("swPairs", ofPairs sw.2),
+                        ("sfCost", ofNat sf.1), ("sfPairs", ofPairs sf.2)])
+    | _, _ => some badInput
+  else if op == "c11.poly" then
+    match getNat? j "sc", getNat? j "fc", getHaps? j "ph0", getHaps? j "ph1" with
+    | some sc, some fc, some ph0, some ph1 =>
+      let p := ph0.length
+      let cols := polyCols ph0 ph1 (ph0.headD []).length
+      let r := polyCompare (flag j "fixA") p sc fc cols
+      let f := polyCompareFull p sc fc cols
+      some (Json.mkObj [("cost", ofNat r.cost), ("rep", Json.arr #[ofNat r.rep.1, ofNat r.rep.2]),
+                        ("adm", ofPairs r.admissible), ("fullCost", ofNat f.1), ("fullPairs", ofPairs f.2)])
+    | _, _, _, _ => some badInput
+  else if op == "c11.polybrute" then
+    match getNat? j "sc", getNat? j "fc", getHaps? j "ph0", getHaps? j "ph1" with
+    | some sc, some fc, some ph0, some ph1 =>
+      let r := Spec.polyBrute ph0.length sc fc (polyCols ph0 ph1 (ph0.headD []).length)
+      some (Json.mkObj [("cost", ofNat r.1), ("pairs", ofPairs r.2)])
+    | _, _, _, _ => some badInput
+  else if op == "c11.agree" then
+    match getHaps? j "ph0", getHaps? j "ph1" with
+    | some ph0, some ph1 =>
+      let o := fun (x : Option (List Nat)) => match x with | some v => ofNatList v | none => Json.str "error"
+      some (Json.mkObj [("faithful", o (agreementFaithful ph0 ph1)), ("fixed", o (agreementFixed ph0 ph1))])
+    | _, _ => some badInput
+  else if op == "c11.pair" then
+    match getNat? j "ploidy", (getObj? j "t0").bind parseTable, (getObj? j "t1").bind parseTable with
+    | some p, some t0, some t1 =>
+      match comparePair (flag j "fixA") (flag j "fixB") (flag j "fix3") p t0 t1 with
+      | none => some (Json.str "error")
+      | some r =>
+        some (Json.mkObj [("intersection_blocks", ofNat r.intersectionBlocks), ("covered_variants", ofNat r.coveredVariants),
+                          ("assessed_pairs", ofNat r.assessedPairs), ("total", errJson r.total),
+                          ("largest_len", ofNat r.largestLen), ("largest", errJson r.largest),
+                          ("bed", ofPairs r.bed), ("longest_positions", ofNatList r.longestPositions),
+                          ("longest_agreement", ofNatList r.longestAgreement),
+                          ("per_block", ofList (fun b => Json.arr #[ofNatList b.1, errJson b.2.1, ofNatList b.2.2]) r.perBlock)])
+    | _, _, _ => some badInput
+  else if op == "c11.multiway" then
+    match (getList? j "tables").bind (·.mapM parseTable) with
+    | some tables =>
+      match compareMultiway (flag j "fixC") tables with
+      | none => some (Json.str "error")
+      | some (total, hist) =>
+        some (Json.mkObj [("total", ofNat total),
+                          ("hist", ofList (fun kc => Json.arr #[ofNatList kc.1, ofNat kc.2]) hist)])
+    | none => some badInput
+  else none
 end WhVerif.Driver.C11
